@@ -356,7 +356,7 @@ def py_compare(eng, op: str, a: Val, b: Val) -> Term:
         elif isinstance(a, V) and isinstance(b, V) and a.ty == b.ty and isinstance(a.ty, (TBool, TInt, TRef)):
             e = Eq(a.t, b.t)
         elif isinstance(a, V) and isinstance(b, V) and a.ty == b.ty and isinstance(a.ty, TOpt) \
-                and isinstance(a.ty.inner, TInt):
+                and isinstance(a.ty.inner, (TInt, TRef)):
             # object identities modelled by integers: `is` is equality of the (optional) identity
             e = Eq(a.t, b.t)
         else:
